@@ -44,6 +44,7 @@ type harness struct {
 	vset  []refeval.Valuation
 	snaps []snap
 	ssnap []sliceSnap
+	loaded []expr.Expr // expressions returned by the history's loads, in order
 
 	sawOverlap   bool
 	readAfterOvl bool
@@ -202,6 +203,9 @@ func (h *harness) checkLoad(ev int, oracle string, mem memory.Memory, m *bytemem
 	}
 	if remember {
 		h.remember(fmt.Sprintf("returned by Load(%#x,%d) at event %d", addr, w, ev), ex)
+		if oracle == "load" {
+			h.loaded = append(h.loaded, ex)
+		}
 	}
 	if int(ex.Width()) != w {
 		return !h.ctx.Fail(h.prop, oracle, oracle+"/width/"+geo, ev,
@@ -536,6 +540,10 @@ func (e *Engine) runMemOps(t *Trace, h *harness, extra func(ev int) bool, onStor
 				continue
 			}
 			ex := h.built[op.V]
+			if op.FromLoad > 0 && op.FromLoad <= len(h.loaded) {
+				ex = h.loaded[op.FromLoad-1]
+				ctx.Probe("store_of_loaded_value")
+			}
 			if t.Obj == "bytes" {
 				if _, isC := ex.(expr.Const); !isC {
 					continue // outside the type's contract (documented panic)
